@@ -52,6 +52,7 @@ type Spec struct {
 	Banners     []Banner `json:"banners"`
 	Park        *Park    `json:"park,omitempty"`
 	ReplyDelay  int      `json:"reply_delay_ms"` // delay before each reply
+	LingerMs    int      `json:"linger_ms"`      // like a hung ssh client: ignore SIGHUP and outlive the tool by this time
 	Modified    bool     `json:"modified"`       // IOS: config differs from startup (Save? dialogue)
 	WriteMem    string   `json:"write_mem"`      // ok | nvram-confirm | busy-once | too-large | no-ok
 	UseModel    bool     `json:"use_model"`      // execute commands on the device model
